@@ -51,7 +51,10 @@ def run_one(cs, tc, cat, df, addr, head27, hc):
         return "adsb.category(%s) -> %r, encoded %d" % (m, r, cat)
     mb = (0x20 << 48) | pack(cs)
     for cdf in (20, 21):
-        m2 = frames.tohex(frames.commb(cdf, addr, mb, head27), 112, hc)
+        v2 = frames.commb(cdf, addr, mb, head27)
+        if head27 & 16 and hc != "M":   # the address chosen so that the six AP digits are the same as six digits inside MB
+            v2 = frames.commb_ap_repeats(cdf, mb, head27, 8 + (head27 >> 5) % 9)[1]
+        m2 = frames.tohex(v2, 112, hc)
         r = call(pms.commb.cs20, m2)
         if r != ("ok", exp):
             return "commb.cs20(%s) -> %r, encoded %r" % (m2, r, exp)
